@@ -54,7 +54,7 @@ def differs(prog, got, want):
     return L.same_value(got, want, tolerance(prog))
 
 
-def run_case(prog, style: str, rseed: int, bindings, specs=None, use_reference=False):
+def run_case(prog, style: str, rseed: int, bindings, specs=None, use_reference=False, dims: str = "concrete"):
     """Write `prog` in Python (`style`, `rseed`), build it, and judge the result with the model-free
     oracle.  Returns a dict: fail = (key, what) | None; model, emission, problems, realised, stats."""
     out = {"fail": None, "model": None, "emission": None, "problems": [], "realised": None,
@@ -65,7 +65,7 @@ def run_case(prog, style: str, rseed: int, bindings, specs=None, use_reference=F
     try:
         with warnings.catch_warnings():
             warnings.simplefilter("ignore")
-            R = L.realise(prog, rng, style, twins=bool(prog.get("special")))
+            R = L.realise(prog, rng, style, twins=bool(prog.get("special")), dims=dims)
     except L.HarnessError as e:
         out["problems"] = [f"harness: {e}"]
         return out
@@ -73,6 +73,15 @@ def run_case(prog, style: str, rseed: int, bindings, specs=None, use_reference=F
         out["fail"] = (classify_raise(prog, "construct", e), f"constructor raised {type(e).__name__}: {str(e)[:200]}")
         return out
     out["realised"] = R
+    if dims != "concrete":
+        # premise "requested outputs have a known rank": with inputs declared by name / None, ONNX inference may
+        # lose an output's rank altogether (Loop state whose body result has another declared size)
+        try:
+            if any(v.unwrap_tensor().shape is None for v in R.outputs.values()):
+                out["notes"].append("outside-premise: a requested output has no known rank")
+                return out
+        except Exception:  # noqa: BLE001 - cannot tell: judge the case with concrete declarations instead
+            return run_case(prog, style, rseed, bindings, specs, use_reference, "concrete")
     try:
         model, log = L.build_model(R)
     except Exception as e:  # noqa: BLE001
@@ -363,7 +372,18 @@ def run_variant(prog, R, variant, bindings, specs):
             warnings.simplefilter("ignore")
             if variant["route"] == "build":
                 inputs = {nm: var for nm, var, _ in entries}
-                model = spox.build(inputs, dict(R.outputs), drop_unused_inputs=variant["drop"])
+                if variant["drop"]:
+                    try:
+                        import inspect
+
+                        if "drop_unused_inputs" not in inspect.signature(spox.build).parameters:
+                            out["skipped"] = "spox.build has no drop_unused_inputs option"
+                            return out
+                    except (TypeError, ValueError):
+                        pass
+                    model = spox.build(inputs, dict(R.outputs), drop_unused_inputs=True)
+                else:
+                    model = spox.build(inputs, dict(R.outputs))
                 name_of = {a: f"in{a}" for a in margs}
                 if variant["drop"]:
                     expected = [nm for nm, _, a in entries if a is not None and a in used]
@@ -376,18 +396,37 @@ def run_variant(prog, R, variant, bindings, specs):
                 except Exception as e:  # noqa: BLE001 - route not available in this tree: nothing to judge
                     out["skipped"] = f"spox._graph.results: {type(e).__name__}"
                     return out
-                g = results(**dict(R.outputs))
-                if variant.get("with_arguments"):
-                    g = g.with_arguments(*[var for _, var, _ in entries])
-                if variant.get("name"):
-                    g = g.with_name("my_graph")
-                if variant.get("doc"):
-                    g = g.with_doc("what the graph does")
-                if variant.get("opset"):
-                    g = g.with_opset(("ai.onnx", prog.get("opset", 17)))
-                model = g.to_onnx_model(**variant.get("kw", {}))
+                try:  # the route's own vocabulary (a renamed setter is a refactoring, not a verdict)
+                    g = results(**dict(R.outputs))
+                    if variant.get("with_arguments"):
+                        g = g.with_arguments(*[var for _, var, _ in entries])
+                    if variant.get("name"):
+                        g = g.with_name("my_graph")
+                    if variant.get("doc"):
+                        g = g.with_doc("what the graph does")
+                    if variant.get("opset"):
+                        g = g.with_opset(("ai.onnx", prog.get("opset", 17)))
+                    to_model = g.to_onnx_model
+                    get_arguments = g.get_arguments
+                except (AttributeError, TypeError, ImportError) as e:
+                    out["skipped"] = f"graph route: {type(e).__name__}: {str(e)[:80]}"
+                    return out
+                kw = dict(variant.get("kw", {}))
+                try:  # options this tree does not have are not passed (their absence is not a verdict)
+                    import inspect
+
+                    params = inspect.signature(to_model).parameters
+                    if not any(p_.kind == p_.VAR_KEYWORD for p_ in params.values()):
+                        kw = {k: v_ for k, v_ in kw.items() if k in params}
+                except (TypeError, ValueError):
+                    pass
+                model = to_model(**kw)
                 # input names are generated here: ask the public accessor which argument got which name
-                named = g.get_arguments()
+                try:
+                    named = get_arguments()
+                except Exception as e:  # noqa: BLE001
+                    out["skipped"] = f"Graph.get_arguments: {type(e).__name__}: {str(e)[:80]}"
+                    return out
                 name_of, extra_named = {}, {}
                 for nm, var in named.items():
                     hit = [a for a in margs if R.vars[(a, 0)] is var]
@@ -419,7 +458,7 @@ def run_variant(prog, R, variant, bindings, specs):
 N_ = L.N
 
 
-def run_variant_case(prog, style, rseed, variant, bindings):
+def run_variant_case(prog, style, rseed, variant, bindings, dims="concrete"):
     """Fresh realisation, the default build first (as in the run), then the variant build.
     Returns (key, what) | None."""
     import warnings
@@ -427,7 +466,7 @@ def run_variant_case(prog, style, rseed, variant, bindings):
     try:
         with warnings.catch_warnings():
             warnings.simplefilter("ignore")
-            R = L.realise(prog, random.Random(rseed), style, twins=bool(prog.get("special")))
+            R = L.realise(prog, random.Random(rseed), style, twins=bool(prog.get("special")), dims=dims)
     except L.HarnessError:
         return None
     except Exception as e:  # noqa: BLE001
@@ -445,16 +484,19 @@ def run_variant_case(prog, style, rseed, variant, bindings):
     return run_variant(prog, R, variant, bindings, specs)["fail"]
 
 
-def case_doc(prog, style, rseed, bindings):
-    return {"prog": prog, "style": style, "rseed": rseed, "bindings": [L.binding_to_json(b) for b in bindings]}
+def case_doc(prog, style, rseed, bindings, dims="concrete"):
+    doc = {"prog": prog, "style": style, "rseed": rseed, "bindings": [L.binding_to_json(b) for b in bindings]}
+    if dims != "concrete":
+        doc["dims"] = dims
+    return doc
 
 
-def shrink_failure(prog, style, rseed, bindings, key, budget):
+def shrink_failure(prog, style, rseed, bindings, key, budget, dims="concrete"):
     def still(p, bs):
         try:
             if L.check_wellformed(p) or L.typecheck(p):
                 return False
-            r = run_case(p, style, rseed, bs)
+            r = run_case(p, style, rseed, bs, dims=dims)
         except Exception:  # noqa: BLE001
             return False
         return r["fail"] is not None and r["fail"][0] == key
@@ -501,13 +543,42 @@ SPLIT18 = {
 
 
 # ------------------------------------------------------------------------------------- the check
+EXERCISED_SETTERS = ["with_arguments", "with_doc", "with_name", "with_opset"]  # = Props/C01.lean exercisedSetters
+
+
 def run(ck: core.Check):
+    entry = None
+    try:  # tie G: the inventory of build routes / options (an unreadable source degrades inside)
+        from translator import c01_entry
+
+        entry = c01_entry.generate()
+    except Exception as e:  # noqa: BLE001
+        ck.broken("generated", "C01 entry-option inventory (translator/c01_entry.py)", f"{type(e).__name__}: {e}")
     ck.lean(["SpoxModel.Props.C01"], audit="SpoxModel.Audit.C01")
+    if entry is not None:
+        # the Lean lists say what the harness varies: keep them honest against the harness's own tables
+        varied = sorted({k for kw in TO_MODEL_KW for k in kw})
+        try:
+            lean_src = (core.LEAN / "SpoxModel" / "Props" / "C01.lean").read_text()
+            import re as _re
+
+            def lean_list(name):
+                m = _re.search(r"def " + name + r" : List String :=\s*\[([^\]]*)\]", lean_src)
+                return sorted(_re.findall(r'"([^"]*)"', m.group(1))) if m else None
+
+            if lean_list("exercisedToModelOptions") != varied:
+                ck.broken("generated", "C01 exercisedToModelOptions differs from the harness's TO_MODEL_KW",
+                          f"{lean_list('exercisedToModelOptions')} vs {varied}")
+            if lean_list("exercisedSetters") != sorted(EXERCISED_SETTERS):
+                ck.broken("generated", "C01 exercisedSetters differs from the harness's graph route", str(lean_list("exercisedSetters")))
+        except Exception as e:  # noqa: BLE001
+            ck.broken("generated", "C01 could not compare the exercised-option lists", f"{type(e).__name__}: {e}")
+        ck.cov["entry_options_inventory"] = {k: [list(x) if isinstance(x, tuple) else x for x in v] for k, v in entry.items()}
     if ck.thorough:
         ck.leanchecker(["SpoxModel.Props.C01"])
 
     rng = ck.rng
-    n_random = ck.pick(520, 8000)
+    n_random = ck.pick(460, 7000)
     n_styles = ck.pick(3, 4)
     n_bind = 3
     skel_uses = ck.pick(3, 6)
@@ -520,10 +591,17 @@ def run(ck: core.Check):
         programs.append((prog, "skeleton2:" + tag))
     for prog, tag in L.skeleton3_programs(ck.pick(2, 3), ck.pick(1, 2)):
         programs.append((prog, "skeleton3:" + tag))
-    for prog, tag in L.skeleton4_programs(pairs=True):
+    sk4 = list(L.skeleton4_programs(pairs=True))
+    if not ck.thorough:  # every single placement, a seeded half of the two-placement programs
+        single = [pt for pt in sk4 if "+" not in pt[1]]
+        double = [pt for pt in sk4 if "+" in pt[1]]
+        sk4 = single + rng.sample(double, len(double) // 2)
+    for prog, tag in sk4:
         programs.append((prog, "skeleton4:" + tag))
     for prog, tag in L.skeleton5_programs(random.Random(rng.getrandbits(48)), ck.thorough):
         programs.append((prog, "skeleton5:" + tag))
+    for prog, tag in L.no_input_programs():  # outputs that read no input at all: the drop build has no inputs
+        programs.append((prog, "skeleton5:no-input:" + tag))
     n_skel = len(programs)
     for _ in range(ck.pick(60, 600)):  # scalar-attribute operators with unusual values, twins constructed first
         programs.append((L.gen_attr_program(random.Random(rng.getrandbits(48))), "attr"))
@@ -578,6 +656,7 @@ def run(ck: core.Check):
 
     lean_used: list[list[int]] = []
     read_profile = collections.Counter()
+    hist_dims = collections.Counter()
     variant_hist = collections.Counter()
     for pi, (prog, origin) in enumerate(programs):
         bad = L.check_wellformed(prog) + L.typecheck(prog)
@@ -608,8 +687,15 @@ def run(ck: core.Check):
         skey = struct_key(prog)
         for style in styles:
             rseed = rng.getrandbits(32)
+            # how the model inputs are declared: the last of several styles (a third of the single-style
+            # skeleton5 programs) declares a seeded part of the dimensions by name / as unknown
+            dims = "concrete"
+            if not origin.startswith("deep") and not prog.get("special"):
+                if (len(styles) > 1 and style == styles[-1]) or (len(styles) == 1 and rng.random() < 0.34):
+                    dims = rng.choice(["symbolic", "unknown"])
+            hist_dims[dims] += 1
             try:
-                res = run_case(prog, style, rseed, bindings, specs, use_reference=(stats["builds"] % 12 == 0))
+                res = run_case(prog, style, rseed, bindings, specs, use_reference=(stats["builds"] % 12 == 0), dims=dims)
             except Exception as e:  # noqa: BLE001 - harness trouble on one case never ends the run
                 stats["harness_errors"] += 1
                 if stats["harness_errors"] <= 3:
@@ -624,7 +710,7 @@ def run(ck: core.Check):
                 notes[nt.split(":")[0]] += 1
             nontrivial = d >= 1 or any(len(n["ty"]) > 1 or None in n["ins"] for n in prog["nodes"])
             ck.count((skey, style) if nontrivial else None)
-            if not res["fail"] and style == styles[0] and (pi % 4 == 0 or origin == "attr") and not origin.startswith("deep"):
+            if not res["fail"] and style == styles[0] and (pi % ck.pick(6, 4) == 0 or origin == "attr") and not origin.startswith("deep"):
                 try:
                     hf = run_history(prog, style, rseed, bindings)
                 except Exception as e:  # noqa: BLE001
@@ -665,13 +751,13 @@ def run(ck: core.Check):
                 p2, b2 = prog, bindings
                 if shrink_budget[0] > 0 and not any(f["key"] == key for f in ck.failures):
                     shrink_budget[0] -= 1
-                    p2, b2 = shrink_failure(prog, style, rseed, bindings, key, ck.pick(60, 200))
-                    r2 = run_case(p2, style, rseed, b2)
+                    p2, b2 = shrink_failure(prog, style, rseed, bindings, key, ck.pick(60, 200), dims)
+                    r2 = run_case(p2, style, rseed, b2, dims=dims)
                     if r2["fail"] and r2["fail"][0] == key:
                         what = r2["fail"][1]
                     else:
                         p2, b2 = prog, bindings
-                ck.failure(key, f"{what} [{origin}, style {style}, {len(p2['nodes'])} nodes]", case_doc(p2, style, rseed, b2))
+                ck.failure(key, f"{what} [{origin}, style {style}, inputs declared {dims}, {len(p2['nodes'])} nodes]", case_doc(p2, style, rseed, b2, dims))
                 stats["oracle_failures"] += 1
             R = res["realised"]
             drop_models: list = []
@@ -686,7 +772,7 @@ def run(ck: core.Check):
                 is5 = origin.startswith("skeleton5")
                 variants = make_variants(prog, rng, full=is5)
                 if is5:
-                    variants = [variants[0]] + rng.sample(variants[1:], 2)
+                    variants = [variants[0]] + rng.sample(variants[1:], ck.pick(1, 2))
                 elif pi % 4:
                     variants = variants[:1]
                 for variant in variants:
@@ -706,25 +792,25 @@ def run(ck: core.Check):
                                  + ("/with_arguments" if variant.get("with_arguments") else "")] += 1
                     if vres["fail"]:
                         vkey, vwhat = vres["fail"]
-                        doc = case_doc(prog, style, rseed, bindings)
+                        doc = case_doc(prog, style, rseed, bindings, dims)
                         doc["variant"] = variant
                         if shrink_budget[0] > 0 and not any(f["key"] == vkey for f in ck.failures):
                             shrink_budget[0] -= 1
 
-                            def still_v(p_, bs_, variant=variant, vkey=vkey):
+                            def still_v(p_, bs_, variant=variant, vkey=vkey, dims=dims):
                                 try:
                                     if L.check_wellformed(p_) or L.typecheck(p_):
                                         return False
-                                    r_ = run_variant_case(p_, style, rseed, variant, bs_)
+                                    r_ = run_variant_case(p_, style, rseed, variant, bs_, dims)
                                 except Exception:  # noqa: BLE001
                                     return False
                                 return r_ is not None and r_[0] == vkey
 
                             try:
                                 p2, b2 = L.shrink(prog, bindings, still_v, ck.pick(40, 150))
-                                r2 = run_variant_case(p2, style, rseed, variant, b2)
+                                r2 = run_variant_case(p2, style, rseed, variant, b2, dims)
                                 if r2 and r2[0] == vkey:
-                                    doc = case_doc(p2, style, rseed, b2)
+                                    doc = case_doc(p2, style, rseed, b2, dims)
                                     doc["variant"] = variant
                                     vwhat = r2[1]
                             except Exception:  # noqa: BLE001
@@ -879,6 +965,7 @@ def run(ck: core.Check):
                 "emission_depth": dict(em_depth),
                 "styles": dict(hist_style),
                 "opset_versions": dict(hist_opset),
+                "model_inputs_declared": dict(hist_dims),
                 "emitted_nodes": stats["emitted_nodes"],
                 "emitted_graphs": stats["emitted_graphs"],
                 "unrequested_constructions": stats["unrequested_constructions"],
@@ -915,7 +1002,7 @@ def replay(ck: core.Check, doc) -> bool:
     prog = case["prog"]
     bindings = [L.binding_from_json(prog, b) for b in case["bindings"]]
     if case.get("variant"):
-        vf = run_variant_case(prog, case["style"], case["rseed"], case["variant"], bindings)
+        vf = run_variant_case(prog, case["style"], case["rseed"], case["variant"], bindings, case.get("dims", "concrete"))
         if vf:
             print(f"{vf[0]}: {vf[1]}")
             return True
@@ -928,7 +1015,7 @@ def replay(ck: core.Check, doc) -> bool:
             return True
         print("every build of the history agrees with the dataflow evaluation")
         return False
-    res = run_case(prog, case["style"], case["rseed"], bindings, use_reference=True)
+    res = run_case(prog, case["style"], case["rseed"], bindings, use_reference=True, dims=case.get("dims", "concrete"))
     if res["fail"]:
         print(f"{res['fail'][0]}: {res['fail'][1]}")
         return True
